@@ -551,6 +551,70 @@ def exact_keep(case, B, op):
     return keep, exact
 
 
+def py_selection(op, mop, B, keep):
+    """What one operation selects for removal in the network snapshot B (the property's "selected for removal", read
+    narrowly): lanelet / sign / light / intersection id sets and, per intersection, the incoming ids that may vanish.
+    Independent of the Lean functions Op.sel?B, with which it is compared on every step."""
+    k = op["op"]
+    Bl = {l["id"]: l for l in B["lanelets"]}
+    Bs = {x[0] for x in B["signs"]}
+    Bt = {x[0] for x in B["lights"]}
+    Bi = {i["id"]: i for i in B["inters"]}
+    selL, selS, selT, selI, inc = set(), set(), set(), set(), {}
+    if k == "net_remove_lanelet":
+        selL = {op["x"]}
+    elif k == "net_remove_sign":
+        selS = {op["x"]}
+    elif k == "net_remove_light":
+        selT = {op["x"]}
+    elif k in ("net_remove_inter", "scn_remove_inter"):
+        selI = {mop["x"]}
+        inc = {mop["x"]: {c["id"] for c in Bi[mop["x"]]["incomings"]}} if mop["x"] in Bi else {}
+    elif k == "scn_remove_signs":
+        selS = set(mop["xs"])
+    elif k == "scn_remove_lights":
+        selT = set(mop["xs"])
+    elif k == "scn_remove_lanelets":
+        selL = {a["id"] for a in mop["args"]}
+        if mop["ref"]:
+            remaining = [l for i, l in Bl.items() if i not in selL]
+            usedS = set().union(*[set(l["signs"]) for l in remaining]) if remaining else set()
+            usedT = set().union(*[set(l["lights"]) for l in remaining]) if remaining else set()
+            ofS = set().union(*[set(a["signs"]) for a in mop["args"]])
+            ofT = set().union(*[set(a["lights"]) for a in mop["args"]])
+            selS, selT = ofS - usedS, ofT - usedT
+    elif k == "cut_out":
+        keep = set(keep) & set(Bl)
+        selL = set(Bl) - keep
+        usedS = set().union(*[set(Bl[i]["signs"]) for i in keep]) if keep else set()
+        usedT = set().union(*[set(Bl[i]["lights"]) for i in keep]) if keep else set()
+        selS, selT = Bs - usedS, Bt - usedT
+        for i, it in Bi.items():
+            gone = set()
+            for c in it["incomings"]:
+                if not (set(c["inc"]) & keep) or not ((set(c["right"]) | set(c["straight"]) | set(c["left"])) & keep):
+                    gone.add(c["id"])
+            inc[i] = gone
+            if len(gone) == len(it["incomings"]):
+                selI.add(i)
+    elif k == "from_list":
+        selL = set(Bl) - set(mop["sel"])
+        selS, selT, selI = set(Bs), set(Bt), set(Bi)
+        inc = {i: {c["id"] for c in it["incomings"]} for i, it in Bi.items()}
+    return selL, selS, selT, selI, inc
+
+
+def canon_selection(op, mop, B):
+    """py_selection restricted to the elements B holds, in the wire format of the model's `Scn.selection`."""
+    selL, selS, selT, selI, inc = py_selection(op, mop, B, mop.get("keep"))
+    Bl = {l["id"] for l in B["lanelets"]}
+    Bs = {x[0] for x in B["signs"]}
+    Bt = {x[0] for x in B["lights"]}
+    Bi = {i["id"]: i for i in B["inters"]}
+    K = sorted([i, c["id"]] for i, it in Bi.items() for c in it["incomings"] if c["id"] in inc.get(i, set()))
+    return {"L": sorted(selL & Bl), "S": sorted(selS & Bs), "T": sorted(selT & Bt), "I": sorted(selI & set(Bi)), "K": K}
+
+
 class Rep:
     """collects oracle failures of one step"""
     def __init__(self, ctx, case, step, op):
@@ -680,35 +744,8 @@ def oracle_step(ctx, rep, case, op, mop, B, A, err, impl_keep=None):
         ctx.tag("intersection-ref-cleaned")
 
     # (3) every element not selected for removal is still present; signs / lights leave with a lanelet only if unreferenced
-    selL, selS, selT, selI = set(), set(), set(), set()          # what the operation may remove
-    must_go_L = set()
-    inc_may_go = {}                                              # intersection id -> incoming ids that may vanish
-    if k == "net_remove_lanelet":
-        selL = must_go_L = {op["x"]}
-    elif k == "net_remove_sign":
-        selS = {op["x"]}
-    elif k == "net_remove_light":
-        selT = {op["x"]}
-    elif k in ("net_remove_inter", "scn_remove_inter"):
-        selI = {op["x"]}
-    elif k == "scn_remove_signs":
-        selS = set(mop["xs"])
-    elif k == "scn_remove_lights":
-        selT = set(mop["xs"])
-    elif k == "scn_remove_lanelets":
-        selL = must_go_L = {a["id"] for a in mop["args"]}
-        if mop["ref"]:
-            remaining = [l for i, l in Bl.items() if i not in selL]
-            usedS = set().union(*[set(l["signs"]) for l in remaining]) if remaining else set()
-            usedT = set().union(*[set(l["lights"]) for l in remaining]) if remaining else set()
-            ofS = set().union(*[set(a["signs"]) for a in mop["args"]])
-            ofT = set().union(*[set(a["lights"]) for a in mop["args"]])
-            selS, selT = ofS - usedS, ofT - usedT
-            if (ofS - usedS) & set(Bs):
-                ctx.tag("hanging:sign-removed")
-            if ofS & usedS:
-                ctx.tag("hanging:sign-kept-shared")
-    elif k == "cut_out":
+    keep = None
+    if k == "cut_out":
         keep, exact = exact_keep(case, B, op)
         if exact:
             if set(impl_keep) != keep:
@@ -717,30 +754,32 @@ def oracle_step(ctx, rep, case, op, mop, B, A, err, impl_keep=None):
             if not set(impl_keep) <= keep:
                 rep.fail("selection/lanelets", f"filter kept {sorted(set(impl_keep) - keep)} although their type is excluded")
             keep = set(impl_keep)   # geometry of a rotated rectangle / circle / polygon: shapely on the implementation's shapes
-        selL = must_go_L = set(Bl) - keep
-        usedS = set().union(*[set(Bl[i]["signs"]) for i in keep]) if keep else set()
-        usedT = set().union(*[set(Bl[i]["lights"]) for i in keep]) if keep else set()
-        selS, selT = set(Bs) - usedS, set(Bt) - usedT
-        if (set(Bs) - usedS):
+    selL, selS, selT, selI, inc_may_go = py_selection(op, mop, B, keep)   # what the operation may remove
+    must_go_L = selL
+    if k == "scn_remove_lanelets" and mop["ref"]:
+        ofS = set().union(*[set(a["signs"]) for a in mop["args"]])
+        if selS & set(Bs):
+            ctx.tag("hanging:sign-removed")
+        if ofS - selS:
+            ctx.tag("hanging:sign-kept-shared")
+    if k == "cut_out":
+        if set(Bs) & selS:
             ctx.tag("cut:sign-dropped")
-        for i, it in Bi.items():
-            gone = set()
-            for c in it["incomings"]:
-                if not (set(c["inc"]) & keep) or not ((set(c["right"]) | set(c["straight"]) | set(c["left"])) & keep):
-                    gone.add(c["id"])
-            inc_may_go[i] = gone
-            if gone:
-                ctx.tag("cut:incoming-dropped")
-            if len(gone) == len(it["incomings"]):
-                selI.add(i)
-                ctx.tag("cut:intersection-dropped")
+        if any(inc_may_go.values()):
+            ctx.tag("cut:incoming-dropped")
+        if selI:
+            ctx.tag("cut:intersection-dropped")
         if op["shape"] is not None:
             ctx.tag("cut:shape")
         if op["excl"]:
             ctx.tag("cut:types")
-    elif k == "from_list":
-        selL = must_go_L = set(Bl) - set(mop["sel"])
-        selS, selT, selI = set(Bs), set(Bt), set(Bi)
+        # observation (not demanded: left_of is not among the relations the property lists): a kept incoming element whose
+        # left_of names an incoming element the cut-out dropped
+        for it in A["inters"]:
+            ids_ = {c["id"] for c in it["incomings"]}
+            if any(c["leftOf"] is not None and c["leftOf"] not in ids_ and
+                   c["leftOf"] in {o["id"] for o in Bi.get(it["id"], {"incomings": []})["incomings"]} for c in it["incomings"]):
+                ctx.tag("obs:left_of-dangling-after-cut_out")
 
     def present(kind, before, after, sel):
         lost = (set(before) - set(after)) - sel
@@ -784,7 +823,7 @@ def run_case(ctx, case, with_model=True):
     if not wf_stream:
         ctx.excluded += 1
     ctx.case(case)
-    mops, trace = [], []
+    mops, trace, sels = [], [], []
     B = init["net"]
     oracle_on = wf_stream and py_nodangling(B) and py_wf(B)
     for step, op in enumerate(case["ops"]):
@@ -798,6 +837,7 @@ def run_case(ctx, case, with_model=True):
         if err is not None:
             ctx.tag("error:" + err)
         mops.append(mop)
+        sels.append(canon_selection(op, mop, B))
         trace.append({"net": A, "ids": impl.ids(), "err": err, "nd": py_nodangling(A), "wf": py_wf(A)})
         if oracle_on and not (op["op"] in ("cut_out", "from_list") and not op["cleanup"]):
             rep = Rep(ctx, case, step, op)
@@ -818,6 +858,10 @@ def run_case(ctx, case, with_model=True):
         out = ctx.driver.ask("C10", "run", {"init": init, "ops": mops})
         model = [{"net": canon_net(s["net"]), "ids": sorted(s["ids"]), "err": s["err"], "nd": s["nd"], "wf": s["wf"]} for s in out]
         ctx.compare(case, trace, model, "history of removals / cut-outs on the real Scenario / LaneletNetwork vs CR.Refs.Scn.trace")
+        msel = ctx.driver.ask("C10", "selections", {"init": init, "ops": mops})
+        msel = [{"L": sorted(x["L"]), "S": sorted(x["S"]), "T": sorted(x["T"]), "I": sorted(x["I"]), "K": sorted(x["K"])} for x in msel]
+        ctx.compare(case, sels, msel, "what each operation selects for removal: the oracle's reading vs CR.Refs.Scn.selections "
+                                      "(the vocabulary of C10_present_run)")
 
 
 def run(ctx):
